@@ -29,6 +29,7 @@ import QV.Real
 import QV.Lemmas.Callbacks
 import QV.Lemmas.EarlyStopFit
 import QV.Props.C17
+import QV.GenBridge.EarlyStopping
 
 namespace QV.Props
 namespace C18
@@ -229,6 +230,43 @@ theorem deviation_eq (es : EarlyStopping ℝ) (p : ℕ) (hp : es.patience = (p :
       have hb : (Real.sqrt (Vof pts[t - p].2).x == 0) = false := by simpa using hs
       refine ⟨_, by simp [EarlyStopping.deviation, hc, EarlyStopping.varianceScaledAbsChange, hchange, hvar, Num.npSqrt, hn, Num.div, hb]; rfl, ?_⟩
       simp [extVal, Num.abs, Num.sub, devSpec, histOf, not_le.mpr hpos]
+
+/-- the extended value of a generated float: the non-finite value ↦ `⊤` -/
+def flExt : QV.Gen.Fl ℝ → WithTop ℝ
+  | none => ⊤
+  | some x => (x : WithTop ℝ)
+
+theorem flExt_devFl (d : Option (Num ℝ)) : flExt (devFl d) = extVal d := by
+  cases d <;> rfl
+
+/-- **C18 (translator tie, composed).** The deviation formulas TRANSLATED FROM THE PYTHON SOURCE
+(`genDeviation`: QV/Gen/EarlyStopping.lean, regenerated from the checked tree on every run), applied to the getters of an
+evaluator that monitors the quantity, compute the DOCUMENTED deviation between `M_{t−p}` and `M_t` of the class docstring —
+`⊤` exactly in the degenerate cases (zero reference, non-positive variance) — for every history with `t ≥ p` evaluations. -/
+theorem C18_gen_deviation_is_documented (es : EarlyStopping ℝ) (p : ℕ) (hp : es.patience = (p : Int))
+    {Mof Vof : W → Num ℝ} {ev : AnyEval W ℝ} {pts : List (Int × W)}
+    (h : Monitors es.quantityName Mof Vof es.criterion ev pts)
+    (t : ℕ) (ht : pts.length = t + 1) (hpt : p ≤ t) :
+    flExt (genDeviation es ev) = devSpec es.criterion ((histOf Mof Vof pts)[t - p]'(by simp [histOf]; omega))
+        ((histOf Mof Vof pts)[t]'(by simp [histOf]; omega)) := by
+  obtain ⟨d, hd, hspec⟩ := deviation_eq es p hp h t ht hpt
+  have hk1 : t - p < pts.length := by omega
+  have hidx : (-es.patience - 1 : Int) = ((t - p : ℕ) : Int) - pts.length := by
+    rw [hp, ht]; omega
+  have hv1 := monitors_value h (t - p) hk1
+  rw [← hidx] at hv1
+  have hv2 := monitors_value_last h t ht
+  have hvar : es.criterion = .variance →
+      ev.variance es.quantityName (some (-es.patience - 1)) = .ok (Vof pts[t - p].2) := by
+    intro hc
+    rw [hc] at h
+    have := monitors_variance h (t - p) hk1
+    rwa [← hidx] at this
+  obtain ⟨d', hd', hgen⟩ := C18_gen_deviation_eq_model es ev _ _ _ hv1 hv2 hvar
+  have hdd : d = d' := by
+    have := hd.symm.trans hd'
+    injection this
+  rw [← hgen, ← hdd, flExt_devFl, hspec]
 
 /-- **C18 never-self.** With patience `p ≥ 1` and `t ≥ p`, the change the model computes is
 `M_{t−p} − M_t` for the evaluations at positions `t − p` and `t` of the history — two DIFFERENT positions,
@@ -1239,6 +1277,24 @@ theorem exRun15 : (fitRun (exStopper .absolute 0.01) true ⟨exEval f15, ⟨fals
 
 /-- scripted Python-float values 0, 5, 5, 5, … by epoch -/
 def f05 : Int → Num ℝ := fun e => ⟨.py, if e = 1 then 0 else 5⟩
+
+/-- the hypotheses of the translator bridge `C18_gen_deviation_eq_model` are met by the example evaluator after two
+evaluations — with a ZERO reference value, i.e. on the degenerate branch of the relative criterion -/
+example : ∃ d, (exStopper .relative 0.01).deviation (exEvalAt f05 [(1, 0), (2, 5)]) = .ok d ∧
+    devFl d = genDeviation (exStopper .relative 0.01) (exEvalAt f05 [(1, 0), (2, 5)]) :=
+  C18_gen_deviation_eq_model _ _ ⟨.py, 0⟩ ⟨.py, 5⟩ ⟨.py, 0⟩
+    (by simp [exEvalAt, exStopper, AnyEval.value, EvalState.getValue, pyIndex, Dict.getItem, List.lookup])
+    (by simp [exEvalAt, exStopper, AnyEval.value, EvalState.getValue, pyIndex, Dict.getItem, List.lookup])
+    (by simp [exStopper])
+
+/-- … and of `C18_gen_on_epoch_end_eq_model` (period 1, tolerance 0.01, absolute criterion, values 1, 5) -/
+example : ∃ r, (exStopper .absolute 0.01).onEpochEnd (exEvalAt f15 [(1, 1), (2, 5)]) ⟨false, none⟩ 2 = .ok r := by
+  obtain ⟨d, hd, _⟩ := C18_gen_deviation_eq_model (exStopper .absolute 0.01) (exEvalAt f15 [(1, 1), (2, 5)])
+    ⟨.py, 1⟩ ⟨.py, 5⟩ ⟨.py, 0⟩
+    (by simp [exEvalAt, exStopper, AnyEval.value, EvalState.getValue, pyIndex, Dict.getItem, List.lookup])
+    (by simp [exEvalAt, exStopper, AnyEval.value, EvalState.getValue, pyIndex, Dict.getItem, List.lookup])
+    (by simp [exStopper])
+  exact ⟨_, C18_gen_on_epoch_end_eq_model _ _ _ 2 0.01 d (by simp [exStopper]) (by simp [exStopper]) hd⟩
 
 /-- **F8 witness, repaired.** Criterion "relative", Python-float metric values, reference value exactly 0.0
 (`M₀ = 0`, `M₁ = M₂ = 5`, patience 1, tolerance 0.01): the second epoch-end (reference 0: degenerate) neither raises —
